@@ -22,7 +22,8 @@ P = {
                  "C13_F1_pinned_refuted", "C13_F1_pinned_refuted_decision", "C13_F2_pinned_refuted", "C13_F3_pinned_refuted",
                  "C13_F4_pinned_refuted", "C13_F4_pinned_refuted_view", "C13_F6_pinned_refuted", "C13_F7_pinned_refuted",
                  "C13_F3b_refuted", "C13_F5_refuted", "C13_F5_refuted_handover", "C13_F8_refuted", "C13_F9_refuted",
-                 "C13_nonvacuous", "C13_nonvacuous_pinned", "C13_nonvacuous_redirect"],
+                 "C13_nonvacuous", "C13_nonvacuous_pinned", "C13_nonvacuous_redirect",
+                 "C13_deployed_decision_same_url", "C13_F10_refuted"],
     "streams": [{
         "name": "entrypoints", "pkg": "./internal/zzverif/c13", "test": "TestVerifC13",
         "overlay": dict(ASSEMBLY_OVERLAY, **{"internal/zzverif/c13/c13_test.go": "c13/c13_test.go"}),
@@ -30,6 +31,11 @@ P = {
         "n_quick": 1200, "n_thorough": 24000,
         "findings": {3: "C13-F3b", 5: "C13-F5", 8: "C13-F8", 9: "C13-F9"},
         "shard": 100,
+    }, {
+        "name": "deployed", "pkg": "./internal/zzverif/c13", "test": "TestVerifC13Deployed",
+        "overlay": dict(ASSEMBLY_OVERLAY, **{"internal/zzverif/c13/c13_test.go": "c13/c13_test.go"}),
+        "eval_module": "Run.Eval_C13", "check_term": "check_tp",
+        "n_quick": 400, "n_thorough": 6000, "findings": {10: "C13-F10"}, "shard": 150,
     }],
     "rule": "per group of 40 cases one generated rule set of 4-7 rules (path expressions /rK/lit, /rK/:name, /rK/:a/x/:b, /rK/**, "
             "/rK/*rest, /rK/v1/:name; allow_encoded_slashes unset/off/on/no_decode; optional method constraint; optional cel authorizer and "
